@@ -134,6 +134,47 @@ fn binop_driver(t: &Tier, m: &mut Matrix, sink: &mut Sink, ops: &[&'static str],
             }
         }
     }
+    // a few wide cases of the expensive operators: multi-word products / quotients of 128-bit words
+    // (u128::wmul high parts only matter beyond 128 bits), carries across every word boundary
+    if !heavy.is_empty() {
+        let wide_lens = [129usize, 130, 191, 192, 193, 255, 256, 257];
+        for i in 0..t.q(36, 300) {
+            let n = wide_lens[i % wide_lens.len()];
+            let ylen = *rng.pick(&[n, 128, 64, 129, 256, 200]);
+            let shape = |rng: &mut Rng, len: usize, k: usize| -> Bits {
+                match k % 6 {
+                    0 => ones(len),
+                    1 => (0..len).map(|i| (i % 2) as u8).collect(),
+                    2 => (0..len).map(|i| (i < 128) as u8).collect(),
+                    3 => (0..len).map(|i| (i >= 64) as u8).collect(),
+                    4 => (0..len).map(|i| (i % 64 == 63 || i % 64 == 0) as u8).collect(),
+                    _ => random_bits(rng, len),
+                }
+            };
+            let x = shape(&mut rng, n, i);
+            let mut y = shape(&mut rng, ylen, i / 6 + 1);
+            let op = heavy[i % heavy.len()];
+            let is_div = matches!(op, "div" | "rem" | "div_rem");
+            if is_div {
+                if t.quick && i % 3 != 0 {
+                    continue; // restoring division of 256-bit operands is the slowest thing TLC evaluates
+                }
+                if y.iter().all(|b| *b == 0) {
+                    y[0] = 1;
+                }
+                // quotients of every size: divisor much shorter, about half, almost equal
+                let keep = *rng.pick(&[ylen, ylen / 2, 70, 9]);
+                for b in y.iter_mut().skip(keep.max(1)) {
+                    *b = 0;
+                }
+                if y.iter().all(|b| *b == 0) {
+                    y[0] = 1;
+                }
+            }
+            let forms: &[&str] = if op == "div_rem" { &[""] } else { &FORMS6 };
+            sink.emit(m.run(&Case::new(op, x).y(YSpec::Bits(y)).forms(forms)));
+        }
+    }
     // dense small random cases (both operands short: every kind takes part)
     for _ in 0..t.q(200, 3000) {
         let n = rng.below(t.q(20, 40));
